@@ -62,6 +62,8 @@ def generate(seed, tier):
                 if ctx is not None and kind == 'function':
                     # the same function also registered WITHOUT the context designation and served first
                     cases.append({'sig': sig, 'ctx': ctx, 'kind': kind, 'twin': True})
+                    # ... and the other way round: the registration WITH the context is served first, the plain one is judged
+                    cases.append({'sig': sig, 'ctx': ctx, 'kind': kind, 'twin': 'plain'})
                 if kind in ('function', 'coroutine'):
                     # an exclusion predicate (dependency injection): every non-empty subset of the defaulted parameters
                     dflt = [n for n, k, d in sig if d and n != ctx]
@@ -150,7 +152,7 @@ def build(case):
     return disp, is_async
 
 
-def doc_params(disp, pred=None):
+def doc_params(disp, pred=None, target='f'):
     out = []
     methods = {'': list(disp.registry.values())}
     for version in ('3.0.3', '3.1.0'):
@@ -158,29 +160,32 @@ def doc_params(disp, pred=None):
         doc = spec.schema(path='/', methods_map=methods)
         json.dumps(doc)
         comps = doc.get('components', {}).get('schemas', {})
-        cand = [v for k, v in comps.items() if k.lower() == 'fparameters']
+        cand = [v for k, v in comps.items() if k.lower() == target + 'parameters']
         assert len(cand) == 1, list(comps)
         out.append((sorted(cand[0].get('properties', {})), sorted(cand[0].get('required', []))))
     spec = orpc.OpenRPC(info=orpc.Info(version='1', title='t'), schema_extractor=PydanticSchemaExtractor(exclude_param=pred))
     doc = spec.schema(path='/', methods_map=methods)
     json.dumps(doc)
-    ps = [m for m in doc['methods'] if m['name'] == 'f'][0]['params']
+    ps = [m for m in doc['methods'] if m['name'] == target][0]['params']
     out.append((sorted(p['name'] for p in ps), sorted(p['name'] for p in ps if p.get('required'))))
     return out
 
 
 def observe(case):
     disp, is_async = build(case)
+    target = 'g' if case.get('twin') == 'plain' else 'f'
     if case.get('twin'):
-        disp.dispatch(json.dumps({'jsonrpc': '2.0', 'id': 0, 'method': 'g', 'params': {p[0]: 0 for p in case['sig']}}), context='CTX')
-    docs = doc_params(disp, predicate(case))
+        first = 'f' if target == 'g' else 'g'
+        disp.dispatch(json.dumps({'jsonrpc': '2.0', 'id': 0, 'method': first,
+                                  'params': {p[0]: 0 for p in case['sig'] if not (first == 'f' and p[0] == case['ctx'])}}), context='CTX')
+    docs = doc_params(disp, predicate(case), target)
     names = [p[0] for p in case['sig']]
     universe = names + ['zz'] + (['ctx', 'self', 'this'] if case['kind'].startswith('view') else [])
     probes = []
     for r in range(len(universe) + 1):
         for sub in itertools.combinations(universe, r):
             d = {n: 1 for n in sub}
-            text = json.dumps({'jsonrpc': '2.0', 'id': 1, 'method': 'f', 'params': d})
+            text = json.dumps({'jsonrpc': '2.0', 'id': 1, 'method': target, 'params': d})
             res = dispenv.loop().run_until_complete(disp.dispatch(text, context='CTX')) if is_async else disp.dispatch(text, context='CTX')
             doc = json.loads(res[0])
             probes.append((d, 'error' in doc and doc['error']['code'] == -32602, doc.get('error', {}).get('code')))
@@ -189,7 +194,7 @@ def observe(case):
 
 def encode(case, obs):
     sig = [tuple(p) for p in case['sig']]
-    excl = ([case['ctx']] if case['ctx'] else []) + list(case.get('xs') or ())
+    excl = ([case['ctx']] if (case['ctx'] and case.get('twin') != 'plain') else []) + list(case.get('xs') or ())
     docs = clist('(%s, %s)' % (clist(cstr(n) for n in names), clist(cstr(n) for n in req)) for names, req in obs['docs'])
     for d, refused, code in obs['probes']:
         if code not in (None, -32602):
